@@ -502,7 +502,10 @@ pub fn worker_main(args: &Args, w: usize, n: usize) -> ! {
             let r = std::panic::catch_unwind(std::panic::AssertUnwindSafe(|| run_case(&case_dir, &img, case)));
             let (bad, panicked) = match r {
                 Ok(b) => (b, false),
-                Err(_) => (vec!["panic".to_string()], true),
+                Err(_) => {
+                    crate::harness_panic_guard("C11 case");
+                    (vec![format!("panic at {}", crate::last_panic_location())], true)
+                }
             };
             println!(
                 "{}",
